@@ -642,6 +642,8 @@ class Quaternion(np.ndarray):
         q_norm = np.linalg.norm(q)
         if q_norm == 0.0:
             raise ValueError("Quaternion cannot be a zero vector.")
+        if not np.isfinite(q_norm):
+            raise ValueError("Quaternion values must be finite.")
         if versor:
             q /= q_norm
         # Create the ndarray instance of type Quaternion. This will call the
@@ -2185,6 +2187,8 @@ class QuaternionArray(np.ndarray):
         q_norm = np.linalg.norm(q, axis=1)
         if sum(~(q_norm > 0)):
             raise ValueError("Quaternion values must be non-zero.")
+        if sum(~np.isfinite(q_norm)):
+            raise ValueError("Quaternion values must be finite.")
 
         # Build pure quaternions if given as N-by-3 array
         if q.shape[-1] == 3:
